@@ -553,6 +553,19 @@ void runCase(std::ostream &os, uint64_t seed, long long idx, const std::string &
     vc::GenOpts o;
     o.maxRows = 8; o.maxCells = 25;
     Circuit c = vc::genCircuit(g, o);
+    if (g.chance(1, 25)) {  // sometimes a fixed obstruction covers every row (fromIspdCircuit's last fallback)
+      for (int i = 0; i < c.nbCells(); ++i) {
+        if (!c.isFixed(i) || !c.isObstruction(i)) continue;
+        std::vector<Rectangle> rr(c.rows().begin(), c.rows().end());
+        Rectangle bb = boundingBox(rr);
+        std::vector<int> w = c.cellWidth(), h = c.cellHeight(), x = c.cellX(), y = c.cellY();
+        std::vector<CellOrientation> orr = c.cellOrientation();
+        w[i] = bb.width() + 2; h[i] = bb.height() + 2; x[i] = bb.minX - 1; y[i] = bb.minY - 1; orr[i] = CellOrientation::N;
+        c.setCellWidth(w); c.setCellHeight(h); c.setCellX(x); c.setCellY(y); c.setCellOrientation(orr);
+        k.count("circuit_forced_full_obstruction");
+        break;
+      }
+    }
     float sf = genFactor(g, false), sm = genFactor(g, true);
     // keep the grid small enough for the dumps
     for (int t = 0; t < 6; ++t) {
@@ -575,6 +588,18 @@ void runCase(std::ostream &os, uint64_t seed, long long idx, const std::string &
     for (const Row &r : c.rows())
       for (const vc::Seg &s : vc::freeSegments(c, r))
         if (s.hi - s.lo > 2LL * margin) gr.regions.emplace_back(s.lo + margin, s.hi - margin, r.minY, r.maxY);
+    if (gr.regions.empty()) {
+      // documented fallback of fromIspdCircuit: the margin removed every row -> the free rows without margin;
+      // no free row at all -> the bounding box of the circuit's rows
+      for (const Row &r : c.rows())
+        for (const vc::Seg &s : vc::freeSegments(c, r)) gr.regions.emplace_back(s.lo, s.hi, r.minY, r.maxY);
+      k.count("grid_fallback_margin_waived");
+      if (gr.regions.empty() && c.nbRows() > 0) {
+        std::vector<Rectangle> rr(c.rows().begin(), c.rows().end());
+        gr.regions.push_back(boundingBox(rr));
+        k.count("grid_fallback_fully_obstructed_whole_area");
+      }
+    }
     HierarchicalDensityPlacement hp = HierarchicalDensityPlacement::fromIspdCircuit(c, sf, sm);
     k.impl("ispd " + std::to_string(mh) + " " + std::to_string(binSize) + " " + std::to_string(margin));
     dumpGrid(k, hp.grid());
